@@ -29,7 +29,8 @@ RULE = ("equal-length sequence lists (2-30 x length 1..15) over small and amino-
         "colours: equal labels equal colours, rare labels black, hls distinct & non-black; density_scatter offsets == distinct "
         "points once with multiplicity colours; similarity_clustermap linkage / clusters == SciPy on own d_alpha + d_beta, "
         "data2d lower == d_alpha, upper == d_beta in dendrogram order. Non-trivial: >= 2 positions with >= 2 residues; NaNs "
-        "present; >= 3 labels with one rare; repeated points; d_alpha != d_beta for some pair with a non-default index.")
+        "present; >= 3 labels with one rare; repeated points; d_alpha != d_beta for some pair with a non-default index."
+        " Large inputs: 1,000-300,000 sequences with exactly known per-position counts for seqlogos, seqs_to_regex and seqs_to_consensus.")
 ASSUMPTIONS = ["only artist data and returned objects are read back; pixel output is not inspected",
                "alignment (mafft) is not available in the sandbox: align=False / equal-length inputs only"]
 
@@ -64,8 +65,17 @@ def member(cols, s):
     return len(s) in reach
 
 
+def seqs_of(case):
+    """case["seqs"], optionally repeated case["repeat"] times with case["rare"] (sequences occurring once) inserted late: collections
+    of 10^3 .. 10^5 sequences whose per-position counts are known exactly."""
+    seqs = list(case["seqs"]) * case.get("repeat", 1)
+    for i, r in enumerate(case.get("rare", [])):
+        seqs.insert(len(seqs) - (i * 37) % (len(seqs) + 1), r)
+    return seqs
+
+
 def check_regex(case, rec):
-    seqs = case["seqs"]
+    seqs = seqs_of(case)
     cols = columns_of(seqs)
     nvar = sum(1 for c, _ in cols if len(c) >= 2)
     gapped = any(o for _, o in cols)
@@ -75,7 +85,7 @@ def check_regex(case, rec):
         pat = re.compile(rx)
     except re.error as e:
         raise Violation("regex-invalid", f"{rx!r}: {e}")
-    for s in seqs:
+    for s in sorted(set(seqs)):
         t = s.replace("-", "")
         if not pat.fullmatch(t):
             raise Violation("regex-rejects-input", f"{rx!r} does not match input {s!r} (gaps removed: {t!r})")
@@ -112,7 +122,7 @@ def check_regex(case, rec):
 
 
 def check_consensus(case, rec):
-    seqs = case["seqs"]
+    seqs = seqs_of(case)
     cols = columns_of(seqs)
     ties = sum(1 for c, _ in cols if len(c) >= 2 and sorted(c.values())[-1] == sorted(c.values())[-2])
     nvar = sum(1 for c, _ in cols if len(c) >= 2)
@@ -126,9 +136,9 @@ def check_consensus(case, rec):
 
 
 def check_logo(case, rec):
-    seqs = case["seqs"]
+    seqs = seqs_of(case)
     cols = columns_of(seqs)
-    rec.note(case, sum(1 for c, _ in cols if len(c) >= 2) >= 2, [f"n={min(len(seqs), 10)}"])
+    rec.note(case, sum(1 for c, _ in cols if len(c) >= 2) >= 2, [f"n={min(len(seqs), 10) if len(seqs) <= 1000 else '>1000'}"])
     try:
         ax, mat = call("seqlogos", PL.seqlogos, list(seqs))
         if mat.shape[0] != len(cols):
@@ -364,10 +374,26 @@ def clustermap_case(draw, tier="quick"):
             "defaults": draw(st.integers(0, 3)) == 0, "meta": draw(st.booleans()), "np_seed": draw(st.integers(0, 10 ** 6))}
 
 
+def check_large(case, rec):
+    {"regex": check_regex, "consensus": check_consensus, "logo": check_logo}[case["what"]](case, rec)
+
+
+def enum_large(tier):
+    base = ["CASSLGQ", "CASSLGQ", "CASRLGQ", "CASSIGQ", "CAWSLGE", "CASSLGQ", "CSSSLAQ"]
+    rare = ["CAYSLGK", "WASSLGQ"]
+    sizes = [150, 1430, 4300] if tier == "quick" else [150, 1430, 1500, 4300, 14300, 43000]
+    for r in sizes:
+        yield {"what": "logo", "seqs": base, "repeat": r, "rare": rare}
+        yield {"what": "regex", "seqs": base, "repeat": r, "rare": rare}
+        # consensus: the majority residue wins by a margin of a few sequences out of tens of thousands
+        yield {"what": "consensus", "seqs": ["CASSF", "CAWSF"], "repeat": r, "rare": ["CASSF", "CASTF", "CASSW"]}
+
+
 SUBS = [
     Sub("regex", check_regex, strategy=lambda t: regex_case(t), budget=(1200, 12000)),
     Sub("consensus", check_consensus, strategy=lambda t: consensus_case(t), budget=(1200, 12000)),
     Sub("seqlogos", check_logo, strategy=lambda t: logo_case(t), budget=(160, 1600)),
+    Sub("large_inputs", check_large, enum=enum_large),
     Sub("rankfrequency", check_rankfrequency, strategy=lambda t: rank_case(t), budget=(800, 8000)),
     Sub("colors", check_colors, strategy=lambda t: color_case(t), budget=(2000, 20000)),
     Sub("density_scatter", check_scatter, strategy=lambda t: scatter_case(t), budget=(800, 8000)),
